@@ -318,3 +318,42 @@ Fixpoint run_session (g : grid) (st : session_state) (qs : list query) : list an
   | [] => []
   | q :: r => let sa := step g st q in snd sa :: run_session g (fst sa) r
   end.
+
+(* ------------------------------------------------------------------ sessions with the mutating API
+   Grid::setX0 / setDX / setNX (Grid.cpp:189-207), setRotationByAngles / setRotationByVector (:209-227; the matrix the
+   library builds is given), resetFromVector (:131).  After a mutation the cached rotation matrices and the scratch
+   vectors of the C++ object must reflect the new geometry; in the model the state simply IS the geometry. *)
+Fixpoint set_nth {A} (l : list A) (k : nat) (v : A) : list A :=
+  match l, k with
+  | [], _ => []
+  | _ :: r, O => v :: r
+  | x :: r, S k' => x :: set_nth r k' v
+  end.
+Inductive mop :=
+| MSetX0 (d : nat) (v : Q) | MSetDX (d : nat) (v : Q) | MSetNX (d : nat) (n : Z)
+| MSetRot (M : option (list (list Q)))                      (* None: the library built the identity *)
+| MReset (nx : list Z) (dx x0 : list Q) (M : option (list (list Q))).
+Definition rot_opt (n : nat) (M : option (list (list Q))) : rotation :=
+  match M with Some m => rot_of_matrix n m | None => rot_identity n end.
+Definition apply_mop (g : grid) (m : mop) : grid :=
+  match m with
+  | MSetX0 d v => {| g_nx := g_nx g; g_x0 := set_nth (g_x0 g) d v; g_dx := g_dx g; g_rot := g_rot g |}
+  | MSetDX d v => {| g_nx := g_nx g; g_x0 := g_x0 g; g_dx := set_nth (g_dx g) d v; g_rot := g_rot g |}
+  | MSetNX d n => {| g_nx := set_nth (g_nx g) d n; g_x0 := g_x0 g; g_dx := g_dx g; g_rot := g_rot g |}
+  | MSetRot M => {| g_nx := g_nx g; g_x0 := g_x0 g; g_dx := g_dx g; g_rot := rot_opt (length (g_nx g)) M |}
+  | MReset nx dx x0 M => {| g_nx := nx; g_x0 := x0; g_dx := dx; g_rot := rot_opt (length nx) M |}
+  end.
+Inductive sitem := SQ (q : query) | SM (m : mop).
+Fixpoint run_msession (g : grid) (items : list sitem) : list (option answer) :=
+  match items with
+  | [] => []
+  | SQ q :: r => Some (eval_query g q) :: run_msession g r
+  | SM m :: r => None :: run_msession (apply_mop g m) r
+  end.
+(* the geometry reached after a list of items *)
+Fixpoint final_grid (g : grid) (items : list sitem) : grid :=
+  match items with
+  | [] => g
+  | SQ _ :: r => final_grid g r
+  | SM m :: r => final_grid (apply_mop g m) r
+  end.
